@@ -318,6 +318,12 @@ fn check_steps(_seed: u64) -> i32 {
         }
     }}
     chk!("steps::Never", "\"Never\"".to_string(), steps_ok(&arrival::Never {}, h));
+    // a prefix without steps: after the pinned leading 0 (KF1) the iterator must end (it used to spin forever: KF19, repaired)
+    {
+        let acp = arrival::ArrivalCurvePrefix::from_arrival_bound_until(&arrival::Never {}, d(10));
+        let v: Vec<u64> = acp.steps_iter().take(3).map(ud).collect();
+        if v != vec![0] { return fail("steps::ArrivalCurvePrefix(empty)", "\"from_arrival_bound_until(Never, 10)\"".to_string(), format!("{:?}", v), "[0]".into()); }
+    }
     chk!("steps::Propagated<Never>", "\"Propagated<Never>\"".to_string(), steps_ok(&Propagated::with_jitter(&arrival::Never {}, d(3)), h));
     // delta-min vectors WITHOUT a plateau at the end (known finding KF5) -- plateaus in the middle are included
     for a in 0..=3u64 { for b in a..=5u64 { for c in (b + 1)..=8u64 {
